@@ -90,3 +90,11 @@ def unutf8(octets):
 
 def or_empty(x):
     return b"" if x is None else (x.encode("utf-8") if isinstance(x, str) else bytes(x))
+
+
+def nil_bytes():
+    return []
+
+
+def snoc_bytes(xs, b):
+    return list(xs) + [bytes(b)]
